@@ -73,6 +73,18 @@ CHECKS = {
         "Nothing above N=16 samples / 8 channels is explored.",
         "DESIGN.md section 3 C06",
     ),
+    "C07": (
+        "exploration",
+        "bounded-exhaustive enumeration of (transform, parameters, depth, gulp, sub-range) on real files; outputs decoded independently",
+        "Each of the 8 streaming transforms is run for every parameter value of a small complete domain (all masks over 4 channels, every "
+        "legal band split, every tfactor x ffactor, nsub | C x DM set, ...) at every design point (gulp, start, nsamps) and the output "
+        "file is decoded by /verif's own SIGPROC parser/unpacker and by the library reader: raw size must be hdrlen + n*C*nbits/8 at the "
+        "declared depth and the values must equal numpy's transform of X[start:start+nsamps] (exact; floor(mean) for integer decimation; "
+        "one level for zero-DM).",
+        "quick uses a star design (all gulps x 3 ranges + 3 gulps x all ranges), thorough the full product. Zero-DM only on inputs that "
+        "stay in range. Sub-banding only for non-negative delay tables. N<=12, C=8.",
+        "DESIGN.md section 3 C07",
+    ),
 }
 
 ENGINES = [
